@@ -380,6 +380,22 @@ def r13_2(rep, M, rid):
                               "(self._system restricted to self.indices)", M.where(fq, call))
             else:
                 rep.ok(rid, base + " system <- self._system[self.indices]")
+    # the cached sub-matrix is cut from the radii-corrected field of the distance record
+    gm = CLUSTER + "._get_distance_matrix_radii_mic"
+    if gm in M.defs:
+        flds = {x.attr for x in ast.walk(M.defs[gm]) if isinstance(x, ast.Attribute) and x.attr.startswith("dist_matrix")}
+        if flds == {"dist_matrix_radii_mic"}:
+            rep.ok(rid, "Cluster sub-matrix is cut from distances.dist_matrix_radii_mic (radii already subtracted)")
+        else:
+            rep.violation(rid, "Cluster._get_distance_matrix_radii_mic: source field", f"reads {sorted(flds)} of the distance record; get_dimensionality "
+                          "expects minimum-image distances with the clustering radii subtracted (dist_matrix_radii_mic)", M.where(gm))
+        mcall = [c for c in calls for k in c.keywords if k.arg == "dist_matrix_radii_mic_1x"]
+        if mcall and all(any(isinstance(x, ast.Call) and isinstance(x.func, ast.Attribute) and x.func.attr == "_get_distance_matrix_radii_mic"
+                             for k in c.keywords if k.arg == "dist_matrix_radii_mic_1x" for x in ast.walk(k.value)) for c in mcall):
+            rep.ok(rid, "the shortcut passes its own cached sub-matrix as dist_matrix_radii_mic_1x")
+        elif mcall:
+            rep.violation(rid, "Cluster.get_dimensionality: precomputed matrix", "the matrix passed as dist_matrix_radii_mic_1x is not the cluster's own "
+                          "radii-corrected sub-matrix", M.where(fq, mcall[0]))
     # constructor siblings in sbc.py
     ctx_kw = ["system", "distances", "radii", "bond_threshold"]
     init = M.find_method(CLUSTER, "__init__")
